@@ -428,6 +428,49 @@ impl Collect for TestCollector {
     }
 }
 
+/// The `log` side (package feature `with_log` = tracing's `log` feature + a logger): the logger counts and formats what
+/// it is given; whether it wants records, and `log::max_level()`, are set per phase.
+#[cfg(feature = "with_log")]
+pub mod logside {
+    use std::sync::atomic::{AtomicBool, AtomicUsize, Ordering};
+    pub static WANTS: AtomicBool = AtomicBool::new(true);
+    pub static LOGGED: AtomicUsize = AtomicUsize::new(0);
+    struct L;
+    impl log::Log for L {
+        fn enabled(&self, _: &log::Metadata<'_>) -> bool {
+            WANTS.load(Ordering::Relaxed)
+        }
+        fn log(&self, r: &log::Record<'_>) {
+            // format the record: runs the Display/Debug impls of the fields, as a real logger would
+            let _ = format!("{}", r.args());
+            LOGGED.fetch_add(1, Ordering::Relaxed);
+        }
+        fn flush(&self) {}
+    }
+    static THE_LOGGER: L = L;
+    pub fn install() {
+        log::set_logger(&THE_LOGGER).expect("logger");
+        log::set_max_level(log::LevelFilter::Trace);
+    }
+    /// `ndon` / `ndoff` / `ndmax<N>`: no dispatcher; logger wants everything / nothing / wants, with max_level N
+    pub fn configure(mode: &str) {
+        let (wants, max) = match mode {
+            "ndon" => (true, 5),
+            "ndoff" => (false, 5),
+            m => (true, m.strip_prefix("ndmax").expect("nd mode").parse::<u8>().unwrap()),
+        };
+        WANTS.store(wants, Ordering::Relaxed);
+        log::set_max_level(match max {
+            0 => log::LevelFilter::Off,
+            1 => log::LevelFilter::Error,
+            2 => log::LevelFilter::Warn,
+            3 => log::LevelFilter::Info,
+            4 => log::LevelFilter::Debug,
+            _ => log::LevelFilter::Trace,
+        });
+    }
+}
+
 pub fn parse_mode(s: &str) -> Mode {
     match s {
         "always" => Mode::Always,
@@ -461,17 +504,37 @@ pub fn run_all(invs: &[(u32, Inv)], data_path: &str, phases: &[String], only: Op
         println!("{{\"static_max\":{}}}", all.iter().position(|x| *x == S).unwrap());
     }
     std::panic::set_hook(Box::new(|_| {}));
+    println!("{{\"log_feature\":{}}}", cfg!(feature = "with_log"));
+    #[cfg(feature = "with_log")]
+    logside::install();
     for (pi, ph) in phases.iter().enumerate() {
         let mut parts = ph.split(':');
         let mode_s = parts.next().unwrap();
         let rounds: usize = parts.next().map(|s| s.parse().unwrap()).unwrap_or(1);
         let first: usize = parts.next().map(|s| s.parse().unwrap()).unwrap_or(0);
-        let mode = parse_mode(mode_s);
+        // `nd*` phases: NO dispatcher at all (and none may have been set before: `dispatch::has_been_set()` is a
+        // process-lifetime flag).  Only meaningful in the `with_log` build.
+        let no_dispatch = mode_s.starts_with("nd");
+        if no_dispatch {
+            assert!(!tracing::dispatch::has_been_set(), "nd phases must come first");
+            #[cfg(feature = "with_log")]
+            logside::configure(mode_s);
+        } else {
+            #[cfg(feature = "with_log")]
+            logside::configure("ndon");
+        }
+        let mode = if no_dispatch { Mode::Never } else { parse_mode(mode_s) };
         let dispatch = tracing::Dispatch::new(TestCollector { mode });
-        tracing::dispatch::with_default(&dispatch, || {
+        let mut body = || {
             d.parent = tracing::span!(tracing::Level::ERROR, "the_parent", pf = 1u8);
             let pid = d.parent.id().map(|i| i.into_u64()).unwrap_or(0);
-            println!("{{\"phase\":{},\"mode\":\"{}\",\"parent_id\":{}}}", pi, mode_s, pid);
+            println!(
+                "{{\"phase\":{},\"mode\":\"{}\",\"parent_id\":{},\"has_been_set\":{}}}",
+                pi,
+                mode_s,
+                pid,
+                tracing::dispatch::has_been_set()
+            );
             for r in first..first + rounds {
                 d.r = r;
                 for (id, f) in invs {
@@ -505,7 +568,12 @@ pub fn run_all(invs: &[(u32, Inv)], data_path: &str, phases: &[String], only: Op
                 }
             }
             d.parent = tracing::Span::none();
-        });
+        };
+        if no_dispatch {
+            body();
+        } else {
+            tracing::dispatch::with_default(&dispatch, body);
+        }
         drop(dispatch);
     }
 }
